@@ -351,7 +351,8 @@ def jobs(tier):
             (("send", "send", "resend"), 0, 1, [(True, False, 2, "mix")])]
     if tier == "thorough":
         plan += [(("send",), 3, 15, [base, ackm]), (("send", "send"), 3, 7, [base, ackm]), (("send", "resend"), 3, 7, [base, ackm]),
-                 (("send", "send", "send"), 1, 3, [base, (True, False, 2, "mix")])]
+                 (("send", "send", "send"), 1, 3, [base]), (("send", "send", "send"), 0, 3, [(True, False, 2, "mix")]),
+                 (("send", "resend", "send"), 0, 2, [(True, False, 2, "mix")])]
     for i, (hist, fr, arc, modes) in enumerate(plan):
         for aa0, ask, ackpl, so in modes:
             out.append(Job("L3-send-resend-history", c02.h_history,
